@@ -7,6 +7,7 @@ import DimModel.Lib.Transform
 import DimModel.Gen.TableC08
 import DimModel.Proofs.C08
 import DimModel.Proofs.C08Pct
+import DimModel.Proofs.C08Red
 namespace DimModel
 open Lib
 
@@ -703,6 +704,163 @@ open C08 in
 /-- what is refused (`percentile_refuses`): a percentile above 100, a list over the whole array without `newaxis=` -/
 example : (match percentile 0 lowerPct ex23 (.scalar 101) (.one (.name "y")) none with | .error e => e | _ => .other) = .value ∧
     (match percentile 0 lowerPct ex23 (.many [50] .i) .none none with | .error e => e | _ => .other) = .type := by
+  decide +kernel
+
+/-! ## what a reduction computes inside a fibre (Lib/Reduce.lean): NaN, the infinities, empty fibres -/
+
+open Lib.XVal in
+/-- **skipna=False propagates NaN**: for sum, prod, mean, min, max, ptp, median and var the function `_get_func` selects
+for `skipna=False` returns NaN on every fibre (of any length) that holds a NaN -/
+theorem red_plain_nan (name : String) (hname : name ∈ ["sum", "prod", "mean", "min", "max", "ptp", "median", "var"])
+    (f : List XVal → Except Err XVal) (hf : selectRed name false = some f) (l : List XVal) (h : XVal.nan ∈ l) :
+    f l = .ok XVal.nan := by
+  simp only [List.mem_cons, List.not_mem_nil, or_false] at hname
+  rcases hname with rfl | rfl | rfl | rfl | rfl | rfl | rfl | rfl <;>
+    simp only [selectRed, Option.some.injEq] at hf <;> subst hf <;>
+    simp [xsum_nan h, xprod_nan h, xmean_nan h, xmin_nan h, xmax_nan h, xptp_nan h, xmedian_nan h, xvar_nan h]
+
+/-- **skipna=True = the plain function on the fibre without its NaNs** (order kept), whenever something is left:
+for every reduction of the table (sum prod mean var min max ptp all any median) and every fibre length -/
+theorem red_skipna_eq_plain_filter (name : String)
+    (hname : name ∈ ["sum", "prod", "mean", "var", "min", "max", "ptp", "all", "any", "median"])
+    (f g : List XVal → Except Err XVal) (hf : selectRed name false = some f) (hg : selectRed name true = some g)
+    (l : List XVal) (h : dropNan l ≠ []) : g l = f (dropNan l) := by
+  simp only [List.mem_cons, List.not_mem_nil, or_false] at hname
+  rcases hname with rfl | rfl | rfl | rfl | rfl | rfl | rfl | rfl | rfl | rfl <;>
+    simp only [selectRed, Option.some.injEq] at hf hg <;> subst hf <;> subst hg <;>
+    simp [xnansum_eq, xnanprod_eq, xnanmean, xnanvar, xnanmin_eq h, xnanmax_eq h, xmaptp_eq h, xmaall, xmaany, xnanmedian_eq]
+
+/-- **nothing left once the NaNs are skipped** (an all-NaN, non-empty fibre): nansum 0, nanprod 1, nanmean / nanvar /
+nanmedian / nanmin / nanmax / masked ptp NaN, all True, any False, nanargmin / nanargmax ValueError -/
+theorem red_skipna_all_nan (l : List XVal) (hne : l ≠ []) (h : dropNan l = []) :
+    xnansum l = .fin 0 ∧ xnanprod l = .fin 1 ∧ xnanmean l = .nan ∧ xnanvar l = .nan ∧ xnanmedian l = .nan ∧
+    xnanmin l = .ok .nan ∧ xnanmax l = .ok .nan ∧ xmaptp l = .ok .nan ∧ xmaall l = .fin 1 ∧ xmaany l = .fin 0 ∧
+    xnanargmin l = .error .value ∧ xnanargmax l = .error .value := by
+  have he : l.isEmpty = false := by cases l <;> simp_all
+  refine ⟨by rw [xnansum_eq, h]; rfl, by rw [xnanprod_eq, h]; rfl, ?_, ?_, ?_, ?_, ?_, ?_, ?_, ?_, ?_, ?_⟩ <;>
+    simp [xnanmean, xnanvar, xnanmedian, xnanmin, xnanmax, xmaptp, xmaall, xmaany, xnanargmin, xnanargmax, h, he,
+      xmean, xvar, medianSorted, xall, xany, XVal.ofBool]
+
+/-- the empty fibre: sum 0, prod 1, mean / var / median NaN, all True, any False in both variants; min, max, ptp,
+argmin, argmax raise ValueError in both variants -/
+theorem red_empty_fibre :
+    xsum [] = .fin 0 ∧ xnansum [] = .fin 0 ∧ xprod [] = .fin 1 ∧ xnanprod [] = .fin 1 ∧ xmean [] = .nan ∧ xnanmean [] = .nan ∧
+    xmin [] = .error .value ∧ xnanmin [] = .error .value ∧ xmax [] = .error .value ∧ xnanmax [] = .error .value ∧
+    xptp [] = .error .value ∧ xmaptp [] = .error .value ∧ xargmin [] = .error .value ∧ xnanargmin [] = .error .value ∧
+    xargmax [] = .error .value ∧ xnanargmax [] = .error .value := by
+  refine ⟨rfl, rfl, rfl, rfl, rfl, rfl, rfl, rfl, rfl, rfl, rfl, rfl, rfl, rfl, rfl, rfl⟩
+
+/-- **on a NaN-free fibre skipna makes no difference** (every function of the table, argmin / argmax and the cumulative
+functions included; every fibre length, the empty fibre included) -/
+theorem red_skipna_no_nan (l : List XVal) (h : XVal.nan ∉ l) :
+    (∀ name f g, selectRed name false = some f → selectRed name true = some g → g l = f l) ∧
+    (∀ name f g, selectScan name false = some f → selectScan name true = some g → g l = f l) := by
+  have hd := dropNan_eq_self h
+  have hm1 : (l.map fun x => if x.isNan then XVal.pinf else x) = l := by
+    rw [List.map_congr_left (g := id)]; · simp
+    intro x hx; cases x <;> simp_all [XVal.isNan]
+  have hm2 : (l.map fun x => if x.isNan then XVal.ninf else x) = l := by
+    rw [List.map_congr_left (g := id)]; · simp
+    intro x hx; cases x <;> simp_all [XVal.isNan]
+  constructor
+  · intro name f g hf hg
+    unfold selectRed at hf hg
+    split at hf <;> simp_all [xnansum_eq, xnanprod_eq, xnanmean, xnanvar, xnanmedian_eq, xmaall, xmaany] <;>
+      subst hf <;> subst hg <;> cases l <;> simp_all [xnanmin, xnanmax, xmaptp, xnanargmin, xnanargmax, xargmin, xargmax, xmin, xmax, xptp, bind, Except.bind]
+  · intro name f g hf hg
+    unfold selectScan at hf hg
+    split at hf <;> simp_all
+    all_goals (subst hf; subst hg; simp [xnansum_eq, xnanprod_eq, hd])
+
+/-- **+-inf is never skipped**: `dropNan` keeps every non-NaN cell; nanmax of a fibre holding +inf is +inf, nanmin of a
+fibre holding -inf is -inf, nansum of a fibre holding +inf and no -inf is +inf -/
+theorem red_inf_not_missing (l : List XVal) :
+    (∀ x, x ∈ dropNan l ↔ x ∈ l ∧ x ≠ .nan) ∧
+    (XVal.pinf ∈ l → xnanmax l = .ok .pinf) ∧ (XVal.ninf ∈ l → xnanmin l = .ok .ninf) ∧
+    (XVal.pinf ∈ l → XVal.ninf ∉ l → xnansum l = .pinf) := by
+  refine ⟨fun x => mem_dropNan, ?_, ?_, ?_⟩
+  · intro h
+    have hm : XVal.pinf ∈ dropNan l := mem_dropNan.mpr ⟨h, by simp⟩
+    have hne : dropNan l ≠ [] := List.ne_nil_of_mem hm
+    rw [xnanmax_eq hne, xmax_eq_foldl hne, foldl_max_pinf _ _ (dropNan_no_nan l) (by simp) (Or.inr hm)]
+  · intro h
+    have hm : XVal.ninf ∈ dropNan l := mem_dropNan.mpr ⟨h, by simp⟩
+    have hne : dropNan l ≠ [] := List.ne_nil_of_mem hm
+    rw [xnanmin_eq hne, xmin_eq_foldl hne, foldl_min_ninf _ _ (dropNan_no_nan l) (by simp) (Or.inr hm)]
+  · intro h h'
+    have hm : XVal.pinf ∈ dropNan l := mem_dropNan.mpr ⟨h, by simp⟩
+    rw [xnansum_eq]
+    exact foldl_add_pinf _ _ (dropNan_no_nan l) (fun e => h' (mem_dropNan.mp e).1) (by simp) (by simp) (Or.inr hm)
+
+/-- **order independence** (exact arithmetic): sum, min and max of a fibre do not depend on the order of its cells - for
+every fibre, NaN and infinite cells included -/
+theorem sum_perm {l₁ l₂ : List XVal} (p : l₁.Perm l₂) : xsum l₁ = xsum l₂ := xsum_perm' p
+
+/-- the last cell of cumsum / cumprod along a fibre is its sum / product (both NaN policies) -/
+theorem cumsum_last_eq_sum (s : Bool) (l : List XVal) :
+    (∀ scan f, selectScan "cumsum" s = some scan → selectRed "sum" s = some f → f l = .ok (scan (l.take l.length))) ∧
+    (∀ scan f, selectScan "cumprod" s = some scan → selectRed "prod" s = some f → f l = .ok (scan (l.take l.length))) := by
+  cases s <;> simp [selectScan, selectRed]
+
+/-- **argmin / argmax return the FIRST position of the extremum** `m = np.min(fibre)` (NaN counts as the extremum, as in
+NumPy: then it is the first NaN position): the position is inside the fibre, holds `m`, and no earlier cell does -/
+theorem argmin_spec (l : List XVal) (hne : l ≠ []) :
+    ∃ m p, xmin l = .ok m ∧ xargmin l = .ok (XVal.ofNat p) ∧ ∃ hp : p < l.length, l[p] = m ∧ ∀ i (hi : i < p), l[i] ≠ m := by
+  cases hm : xmin l with
+  | error e => cases l <;> simp_all [xmin]
+  | ok m =>
+    have hmem := xmin_mem hm
+    have hp := List.idxOf_lt_length_of_mem hmem
+    refine ⟨m, l.idxOf m, rfl, by simp [xargmin, hm, bind, Except.bind, pure, Except.pure], hp, List.getElem_idxOf hp, ?_⟩
+    intro i hi h
+    have := List.not_of_lt_findIdx (p := (· == m)) (xs := l) (i := i) (by simpa [List.idxOf] using hi)
+    simp [h] at this
+
+theorem argmax_spec (l : List XVal) (hne : l ≠ []) :
+    ∃ m p, xmax l = .ok m ∧ xargmax l = .ok (XVal.ofNat p) ∧ ∃ hp : p < l.length, l[p] = m ∧ ∀ i (hi : i < p), l[i] ≠ m := by
+  cases hm : xmax l with
+  | error e => cases l <;> simp_all [xmax]
+  | ok m =>
+    have hmem := xmax_mem hm
+    have hp := List.idxOf_lt_length_of_mem hmem
+    refine ⟨m, l.idxOf m, rfl, by simp [xargmax, hm, bind, Except.bind, pure, Except.pure], hp, List.getElem_idxOf hp, ?_⟩
+    intro i hi h
+    have := List.not_of_lt_findIdx (p := (· == m)) (xs := l) (i := i) (by simpa [List.idxOf] using hi)
+    simp [h] at this
+
+/-- `np.nanargmin` replaces NaN by +inf before `np.argmin`: when every non-NaN cell is +inf and a NaN comes first, the
+position returned is the NaN's (NumPy's behaviour, mirrored; the hypothesis "some non-NaN cell is below +inf" is needed
+for "the position of the minimum among the non-NaN cells") -/
+theorem nanargmin_inf_counterexample : xnanargmin [.nan, .pinf] = .ok (XVal.ofNat 0) := by
+  simp [xnanargmin, dropNan, XVal.isNan, xargmin, xmin, XVal.min, XVal.le, bind, Except.bind, pure, Except.pure, List.idxOf, List.findIdx, List.findIdx.go]
+
+/-- **END TO END**: every cell of `a.<fn>(axis=name, skipna=s)` on concrete data is the fibre function `f` (for instance
+`selectRed fn s = some f`) of exactly that cell's fibre: the call succeeds only if no fibre raises, the result keeps the
+other axes (labels, metadata, order) and the array's metadata, and cell `j` is `f` of `fibre a pos j` -/
+theorem reduceX_name_spec (f : List XVal → Except Err XVal) (a : DimArray XVal) (pos : Nat)
+    (hpos : pos < a.dims.length) (hn : a.dims.Nodup) (hrank : a.ndim ≠ 1) (r : DimArray XVal)
+    (h : reduceX f a (.one (.name a.dims[pos])) = .ok (.inr r)) :
+    r.axes = a.axes.eraseIdx pos ∧ r.dims = a.dims.eraseIdx pos ∧ r.attrs = a.attrs ∧
+    r.vals.shape = a.vals.shape.eraseIdx pos ∧
+    (∀ j, r.vals.get j = totalize f (fibre a pos j)) ∧
+    (∀ j ∈ allIdx (a.vals.shape.eraseIdx pos), f (fibre a pos j) = .ok (r.vals.get j)) := by
+  obtain ⟨h1, h2⟩ := reduceX_ok h
+  obtain ⟨r', hr', hax, hdims, hat, hsh, hget, _⟩ := reduce_name_spec (totalize f) a pos hpos hn hrank
+  rw [hr'] at h1
+  simp only [Except.ok.injEq, Sum.inr.injEq] at h1
+  subst h1
+  refine ⟨hax, hdims, hat, hsh, hget, ?_⟩
+  intro j hj
+  rw [hget j]
+  apply h2 a (some pos) (dealWithAxis_name a pos hpos hn)
+  simp only [fibresOf, List.mem_append, List.mem_map]
+  exact Or.inr ⟨j, hj, rfl⟩
+
+/-- the hypotheses of `reduceX_name_spec` are satisfiable by a non-trivial input: nanmax along "y" of [[1, NaN], [+inf, -inf]] -/
+example : (match reduceX xnanmax
+      { axes := [{ name := "x", labels := [.num 0, .num 1], kind := .i }, { name := "y", labels := [.num 0, .num 1], kind := .i }],
+        vals := NDArr.ofFlat [2, 2] [.fin 1, .nan, .pinf, .ninf] } (.one (.name "y")) with
+    | .ok (.inr r) => r.vals.toList | _ => []) = [.fin 1, .pinf] := by
   decide +kernel
 
 end DimModel
